@@ -1,6 +1,5 @@
 """C20 — CLI options override typeshare.toml; generated config files round-trip (cli/src/config.rs, main.rs)."""
-import itertools, re, tomllib
-import re
+import errno, itertools, os, re, stat, subprocess, threading, time, tomllib
 from common import *
 import l2
 
@@ -82,7 +81,10 @@ def run(check):
                   "present} x {key absent, present}, config found by -c and by ancestor-directory search, observed in generated "
                   "code (prefix, package line) for the language that shows it and in the TOML written by -g; random file-only "
                   "tables (type_mappings, default_decorators, generic constraints, uppercase_acronyms, no_pointer_slice) observed "
-                  "in generated code; -g never overwrites; the written file reloads to the same output; non-trivial = at "
+                  "in generated code; the kind of file-system object the configuration path is (regular, `..` / relative path, hard / "
+                  "symbolic links, FIFO, /dev/stdin, inherited pipe; missing, dangling, directory, loop) x language x settings x "
+                  "option x shape of the text, judged against the run with the same text in a regular file; -g never overwrites "
+                  "(also onto links, directories, FIFOs); the written file reloads to the same output; non-trivial = at "
                   "least one of option / key is present")
     cases = []
     for name, flag, (sec, key), idx, lang in OPTS:
@@ -191,6 +193,10 @@ def run(check):
         folder_mode_part(check)
     if not check.has_failing():
         folder_mappings_part(check)
+    if not check.has_failing():
+        config_object_kind_part(check)
+    if not check.has_failing():
+        generate_onto_object_part(check)
     check.exhaustive = True
     check.extra["exhaustive_scope"] = "7 settings x {option absent, present} x {key absent, present} x {-c, ancestor search}"
     check.assumptions += ["TOML (de)serialisation by the `toml` crate and option parsing by `clap` are external; they are exercised through the real binary",
@@ -310,6 +316,450 @@ def folder_mappings_part(check):
                                     % (L, crate, L, own or "nothing", others, L, l2.text_diff(want, got[0] if got else "")),
                                     case=case, impl={"files": outs}, model=direct, failing_input=True)
                     return
+
+
+# ----------------------------------------------------------------------------- what kind of file-system object the path is
+
+def run_cli_fed(args, cwd, stdin_bytes=None, stdin_file=None, fifos=(), fd_pipe=None, timeout=20):
+    """run the rebuilt binary with a configuration that is *served* rather than stored: `stdin_bytes` are written to a pipe that
+    is the child's standard input, `stdin_file` is opened as its standard input, each (path, bytes) of `fifos` gets a writer that
+    connects as soon as somebody opens the FIFO for reading (and never blocks when nobody does), `fd_pipe` bytes are written to an
+    anonymous pipe whose read end the child inherits - the text `@FD@` in `args` is replaced by its number (what the shell's
+    `<(cat typeshare.toml)` does).  Returns dict(rc, err, timed_out, served): `served` tells per writer how many bytes were taken."""
+    e = dict(ENV)
+    e["RUST_LOG"] = "info"
+    e.pop("RUST_BACKTRACE", None)
+    stop = threading.Event()
+    served = {}
+    threads = []
+    close_after = []
+    kw = {"stdin": subprocess.DEVNULL}
+    pass_fds = ()
+    if stdin_bytes is not None:
+        kw["stdin"] = subprocess.PIPE
+    elif stdin_file is not None:
+        f = open(stdin_file, "rb")
+        close_after.append(f)
+        kw["stdin"] = f
+
+    def write_all(fd, data, label):
+        n = 0
+        try:
+            while n < len(data):
+                n += os.write(fd, data[n:n + 65536])
+        except OSError:
+            pass                        # the reader went away (EPIPE): `served` says how far it got
+        finally:
+            served[label] = n
+            os.close(fd)
+
+    def fifo_writer(path, data):
+        while not stop.is_set():
+            try:
+                fd = os.open(path, os.O_WRONLY | os.O_NONBLOCK)
+            except OSError as ex:
+                if ex.errno in (errno.ENXIO, errno.ENOENT):   # nobody has it open for reading (yet)
+                    time.sleep(0.002)
+                    continue
+                served[path] = "open failed: %s" % ex
+                return
+            os.set_blocking(fd, True)
+            write_all(fd, data, path)
+            return
+        served.setdefault(path, "never opened for reading")
+
+    for path, data in fifos:
+        t = threading.Thread(target=fifo_writer, args=(path, data), daemon=True)
+        threads.append(t)
+    if fd_pipe is not None:
+        r, w = os.pipe()
+        args = [a.replace("@FD@", str(r)) for a in args]
+        pass_fds = (r,)
+        threads.append(threading.Thread(target=write_all, args=(w, fd_pipe, "fd"), daemon=True))
+    p = subprocess.Popen([CLI_BIN] + list(args), cwd=cwd, env=e, stdout=subprocess.PIPE, stderr=subprocess.PIPE,
+                         pass_fds=pass_fds, **kw)
+    if fd_pipe is not None:
+        os.close(r)                     # only the child holds the read end now: a writer never outlives it
+    for t in threads:
+        t.start()
+    timed_out = False
+    try:
+        out, err = p.communicate(input=stdin_bytes, timeout=timeout)
+    except subprocess.TimeoutExpired:
+        timed_out = True
+        p.kill()
+        out, err = p.communicate()
+    stop.set()
+    for t in threads:
+        t.join(5)
+    for f in close_after:
+        f.close()
+    return dict(rc=None if timed_out else p.returncode, err=err.decode("utf-8", "replace"), timed_out=timed_out, served=served)
+
+
+# kinds of object that carry the configuration text: the settings used must be those of the text behind the path
+CARRIERS = ["regular", "path-with-dotdot", "relative-path", "relative-path-with-dotdot", "hard-link", "symlink-absolute",
+            "symlink-relative", "symlink-chain", "symlink-through-linked-directory", "fifo", "dev-stdin-pipe", "dev-stdin-file",
+            "inherited-pipe-dev-fd", "inherited-pipe-proc-self-fd"]
+# kinds of object that carry no text at all: a diagnostic and a non-zero exit status
+NO_TEXT = ["missing", "dangling-symlink", "directory", "symlink-to-directory", "symlink-loop"]
+# kinds for the discovered ./typeshare.toml that the search accepts (it must then be *used*) ...
+FOUND = ["regular", "hard-link", "symlink-absolute", "symlink-relative", "symlink-chain"]
+# ... and kinds it may pass over - then the next typeshare.toml up the chain decides, not the defaults
+PASSED_OVER = ["directory", "dangling-symlink", "symlink-to-directory", "symlink-loop", "fifo"]
+
+
+def place_config(sc, kind, where, text):
+    """make the object of the given kind that stands for the configuration `text`; `where` is the path (relative to the scratch
+    directory) the binary is to find it at (for kinds that need one).  Returns (value for -c, keyword arguments for run_cli_fed)"""
+    data = text.encode("utf-8")
+    store = "store/%s.real" % where.replace("/", "_")
+    at = sc.path(where)
+    os.makedirs(os.path.dirname(at), exist_ok=True)
+    if kind == "regular":
+        sc.write(where, text)
+        return at, {}
+    if kind == "path-with-dotdot":
+        sc.write(where, text)
+        os.makedirs(sc.path("store/deep/er"), exist_ok=True)
+        return os.path.join(sc.path("store/deep/er"), "..", "..", "..", where.replace("/", "/./")), {}
+    if kind == "relative-path":                     # resolved against the working directory (ws/proj)
+        sc.write(where, text)
+        return os.path.relpath(at, sc.path("ws/proj")), {}
+    if kind == "relative-path-with-dotdot":
+        sc.write(where, text)
+        return os.path.join("src", "..", os.path.relpath(at, sc.path("ws/proj"))), {}
+    if kind == "hard-link":
+        sc.write(store, text)
+        os.link(sc.path(store), at)
+        return at, {}
+    if kind == "symlink-absolute":
+        sc.write(store, text)
+        os.symlink(sc.path(store), at)
+        return at, {}
+    if kind == "symlink-relative":
+        sc.write(store, text)
+        os.symlink(os.path.relpath(sc.path(store), os.path.dirname(at)), at)
+        return at, {}
+    if kind == "symlink-chain":
+        sc.write(store, text)
+        os.symlink(sc.path(store), sc.path(store + ".hop"))
+        os.symlink(os.path.relpath(sc.path(store + ".hop"), os.path.dirname(at)), at)
+        return at, {}
+    if kind == "symlink-through-linked-directory":
+        sc.write(store, text)
+        os.symlink(sc.path("store"), at + ".dir")
+        return os.path.join(at + ".dir", os.path.basename(store)), {}
+    if kind == "fifo":
+        os.mkfifo(at)
+        return at, {"fifos": [(at, data)]}
+    if kind == "dev-stdin-pipe":
+        return "/dev/stdin", {"stdin_bytes": data}
+    if kind == "dev-stdin-file":
+        sc.write(store, text)
+        return "/dev/stdin", {"stdin_file": sc.path(store)}
+    if kind == "inherited-pipe-dev-fd":
+        return "/dev/fd/@FD@", {"fd_pipe": data}
+    if kind == "inherited-pipe-proc-self-fd":
+        return "/proc/self/fd/@FD@", {"fd_pipe": data}
+    if kind == "missing":
+        return at, {}
+    if kind == "dangling-symlink":
+        os.symlink(sc.path("store/nowhere.toml"), at)
+        return at, {}
+    if kind == "directory":
+        os.makedirs(at)
+        sc.write(where + "/typeshare.toml", text)    # what is *in* the directory is not what was named
+        return at, {}
+    if kind == "symlink-to-directory":
+        os.makedirs(sc.path(store + ".d"))
+        os.symlink(sc.path(store + ".d"), at)
+        return at, {}
+    if kind == "symlink-loop":
+        os.symlink(at + ".back", at)
+        os.symlink(at, at + ".back")
+        return at, {}
+    raise ValueError(kind)
+
+
+def random_settings(rng, L):
+    """a typeshare.toml with settings for every language (each language's values are its own); which of the keys that show in the
+    output of `L` are present is drawn at random.  Returns (tables, values of L's section that must show, cli flags, file7, cli7)"""
+    n = rng.randint(100, 999)
+    mine = {"swift": ["prefix", "type_mappings", "default_decorators"], "kotlin": ["prefix", "package", "type_mappings"],
+            "scala": ["package", "type_mappings"], "typescript": ["type_mappings"],
+            "go": ["package", "type_mappings", "uppercase_acronyms", "no_pointer_slice"], "python": ["type_mappings"]}
+    full = {}
+    for M in LANGS:
+        tag = "%s%d" % (M[:2].title(), n)
+        full[M] = {"prefix": "Px" + tag, "package": "org.%s%d.pk" % (M[:2], n) if M != "go" else "pk%s%d" % (M[:2], n),
+                   "type_mappings": {"Url": "Mapped" + tag, "Stamp": "When" + tag},
+                   "default_decorators": ["Deco" + tag, "Sendable"], "uppercase_acronyms": ["id", "url", "api"],
+                   "no_pointer_slice": True}
+    tables = {}
+    for M in LANGS:
+        keys = [k for k in mine[M] if rng.random() < (0.75 if M == L else 0.4)]
+        if M == L and not keys:
+            keys = [rng.choice(mine[M])]
+        if keys:
+            tables[M] = {k: full[M][k] for k in keys}
+    flags = []
+    opts = [o for o in OPTS if o[4] == L]
+    cli7 = [None] * 7
+    if opts and rng.random() < 0.5:
+        name, flag, (sec, key), idx, _ = rng.choice(opts)
+        cli7[idx] = "Cli%d" % n if "package" not in name else "com.cli%d.pk" % n if L != "go" else "clipk%d" % n
+        flags = [flag, cli7[idx]]
+    # Scala cannot generate without a package at all (a C07 matter): it always has one from somewhere
+    if L == "scala" and "package" not in tables.get("scala", {}) and not flags:
+        tables.setdefault("scala", {})["package"] = full["scala"]["package"]
+    file7 = [tables.get(sec, {}).get(key, "") for _, _, (sec, key), _, _ in OPTS]
+    return tables, flags, file7, cli7
+
+
+SRC_OBJ = SRC_ACR + "\n#[typeshare]\npub struct Logged {\n    pub at: Stamp,\n    pub tags: Option<Vec<String>>,\n}\n"
+
+
+def config_object_kind_part(check):
+    """Dimension: *what kind of file-system object* the configuration path is - for the path given with -c: a regular file, the
+    same file reached through `..` / `.` components, by a path relative to the working directory, by a hard link, by an absolute /
+    relative / chained symbolic link or through a symbolic link to its directory, a FIFO somebody writes the text into, /dev/stdin
+    fed through a pipe or redirected from a file, an inherited pipe named /dev/fd/N or /proc/self/fd/N (the shell's `<(...)`);
+    and objects without any text: a missing path, a dangling symbolic link, a directory, a link to a directory, a link loop.  For the
+    discovered ./typeshare.toml: regular, hard link, the three link kinds (accepted by the search), and directory / dangling link /
+    link loop / FIFO named typeshare.toml in the working directory with a regular typeshare.toml one level up.  Crossed with:
+    the six languages, random subsets of prefix / package / type_mappings / default_decorators / uppercase_acronyms /
+    no_pointer_slice in every language's section, an option on the command line or none, and the size and shape of the text (a few
+    lines; 0 bytes; comments only; more than a pipe holds at once; no final newline).
+    Demanded: the settings used are those of the text behind the path - the run leaves exactly the output (and the kind of exit
+    status) of the run that gets the same text as a regular file with the same options, whose shared settings are in turn
+    judged by the precedence rule - or, where there is no text, a diagnostic and a non-zero exit status.  Never silently the
+    defaults; never a hang."""
+    rng = check.rng
+    shapes = ["plain", "plain", "empty", "comments-only", "larger-than-a-pipe", "no-final-newline"]
+    rounds = 3 if check.thorough else 1
+    for rnd in range(rounds):
+        for L in LANGS:
+            # quick: every language sees two shapes and a third of the kinds each, every kind is seen by two languages at least
+            for shape in (shapes if check.thorough else ["plain", rng.choice(shapes[2:])]):
+                tables, flags, file7, cli7 = random_settings(rng, L)
+                text = toml_text({}, tables)
+                if shape == "empty":
+                    text, file7 = "", [""] * 7
+                elif shape == "comments-only":
+                    text, file7 = "# typeshare.toml\n\n   # nothing set\n", [""] * 7
+                elif shape == "larger-than-a-pipe":
+                    text = "".join("# %05d %s\n" % (i, "-" * 90) for i in range(rng.randint(700, 1500))) + text
+                elif shape == "no-final-newline":
+                    text = text.rstrip("\n")
+                if shape in ("empty", "comments-only") and L == "scala" and not flags:
+                    cli7[4] = "com.cli.pk"
+                    flags = ["--scala-package", cli7[4]]
+                if check.thorough:
+                    kinds = [("-c", k) for k in CARRIERS + NO_TEXT] + [("search", k) for k in FOUND + PASSED_OVER]
+                else:
+                    always = ["regular", "fifo", "dev-stdin-pipe", "inherited-pipe-dev-fd"]
+                    kinds = [("-c", k) for k in always + rng.sample([k for k in CARRIERS if k not in always], 4) + rng.sample(NO_TEXT, 2)] + \
+                            [("search", k) for k in rng.sample(FOUND, 2) + rng.sample(PASSED_OVER, 2)]
+                if object_kind_group(check, L, shape, text, tables, flags, file7, cli7, kinds):
+                    return
+
+
+def object_kind_group(check, L, shape, text, tables, flags, file7, cli7, kinds):
+    """one configuration text x one command line, handed over as each of `kinds`; True when a violation was reported"""
+    ext = EXT[L]
+
+    def one(sc, tag, args, cwd, **fed):
+        out = sc.path("out/%s.%s" % (tag, ext))
+        os.makedirs(os.path.dirname(out), exist_ok=True)
+        r = run_cli_fed(["--lang", L, "-o", out] + flags + args + [sc.path("ws/proj/src")], cwd=cwd, **fed)
+        r["output"] = open(out, encoding="utf-8").read() if os.path.exists(out) else None
+        return r
+
+    def same(a, b):
+        return (a["rc"] == 0) == (b["rc"] == 0) and not a["timed_out"] and not b["timed_out"] and a["output"] == b["output"]
+
+    with Scratch() as sc:
+        sc.write("ws/proj/src/lib.rs", SRC_OBJ)
+        cwd = sc.path("ws/proj")
+        # the references: the text as a regular file outside the working directory's ancestor chain; no configuration at all;
+        # the text of the typeshare.toml one level up (used by the passed-over kinds)
+        sc.write("ref/cfg.toml", text)
+        ref = one(sc, "ref", ["-c", sc.path("ref/cfg.toml")], cwd)
+        dflt = one(sc, "dflt", [], cwd)
+        far_tables = {M: dict(kv) for M, kv in tables.items()}
+        far_tables.setdefault(L, {})["type_mappings"] = {"Url": "FarUrl", "Stamp": "FarStamp"}
+        far_text = toml_text({}, far_tables)
+        sc.write("ref/far.toml", far_text)
+        far = one(sc, "far", ["-c", sc.path("ref/far.toml")], cwd)
+        base_case = {"lang": L, "options": flags, "shape_of_text": shape, "toml": text if len(text) < 3000 else text[:200] + "\n# ... %d bytes ...\n" % len(text) + text[-1500:],
+                     "source": SRC_OBJ, "working_directory": "ws/proj", "input": "ws/proj/src"}
+
+        # the reference itself is judged by the precedence rule (several shared keys and an option at once) and against the model
+        ma = model([[S("config"), file7, cli7, L == "go"]], with_unicode=False)[0]
+        want7 = [c if c is not None else f for c, f in zip(cli7, file7)]
+        problem = None
+        if ref["timed_out"]:
+            problem = "the run with the text as a regular file does not end"
+        elif L == "go" and want7[6] == "":
+            if ref["rc"] == 0:
+                problem = "the run succeeds although no Go package is configured"
+        elif ref["rc"] != 0:
+            problem = "exit status %s with the text as a regular file: %s" % (ref["rc"], ref["err"][-300:])
+        else:
+            obs = observe(L, ref["output"])
+            for name, flag, (sec, key), idx, lang in OPTS:
+                k = name if name != "scala-package" else "scala-package-parent"
+                w = want7[idx] if name != "scala-package" else (want7[idx].rsplit(".", 1)[0] if "." in want7[idx] else "")
+                if lang == L and k in obs and obs[k] != w:
+                    problem = "generated %s code shows %s = %r, the precedence rule gives %r (option %r, file %r)" % (
+                        L, k, obs[k], w, cli7[idx], file7[idx])
+            for rust, mapped in tables.get(L, {}).get("type_mappings", {}).items() if shape not in ("empty", "comments-only") else []:
+                if mapped not in ref["output"]:
+                    problem = "type mapping %s -> %s of the file is not applied" % (rust, mapped)
+        check.saw(("object-kind-reference", L, shape, bool(flags), text[-200:]), nontrivial=ref["output"] != dflt["output"])
+        check.count("object-kind reference: %s text, option %s" % (shape, "given" if flags else "absent"))
+        if problem:
+            check.violation("configuration as a regular file given with -c (%s, %s text): %s" % (L, shape, problem),
+                            case=dict(base_case, kind="regular"), impl={"rc": ref["rc"], "stderr": ref["err"][-500:], "output": (ref["output"] or "")[-1500:]},
+                            model=ma, failing_input=True)
+            return True
+        if ("err" in ma) != (L == "go" and want7[6] == "") or ("ok" in ma and ma["ok"] != want7):
+            check.violation("model: effective settings %s for file %s and options %s, the precedence rule gives %s" % (ma, file7, cli7, want7),
+                            case=dict(base_case, kind="regular"), model=ma, failing_input=False,
+                            broken="TsV.Props.C20: effective settings of the model differ from option-else-file-else-default")
+
+        def describe(got):
+            """how `got` relates to the references, in words"""
+            if got["timed_out"]:
+                return "the run does not end (killed after 20 s)"
+            if got["rc"] != 0:
+                return "exit status %s: %s" % (got["rc"], last_words(got["err"]))
+            if same(got, dflt) and not same(dflt, ref):
+                lost = sorted(v for v in re.findall(r"\w+\d{3}\b", text) if v in (ref["output"] or "") and v not in (got["output"] or ""))
+                return ("exit status 0 and exactly the output of a run without any configuration file: the file's settings %s are "
+                        "silently replaced by the defaults%s" % (lost[:6], " (the option is applied)" if flags else ""))
+            return "exit status 0 and another output: " + l2.text_diff(ref["output"] or "", got["output"] or "")
+
+        for how, kind in kinds:
+            with_text = kind in CARRIERS if how == "-c" else kind in FOUND
+            # every object lives in a directory of its own; for the search it is ./typeshare.toml of the working directory, which is
+            # then a fresh one (ws/<n>/proj) with a copy of the sources' path given absolutely
+            tag = "%s-%s" % (how.strip("-"), kind)
+            if how == "-c":
+                value, fed = place_config(sc, kind, "given/%s/cfg.toml" % kind, text)
+                # a different, discoverable typeshare.toml must not be what is used instead
+                got = one(sc, tag, ["-c", value], cwd, **fed)
+                allowed = [("the text behind the path", ref)] if with_text else []
+            else:
+                wd = "ws-%s/proj" % kind
+                os.makedirs(sc.path(wd))
+                allowed = [("the text behind the path", ref)] if with_text else [("the typeshare.toml one level up", far)]
+                if not with_text:
+                    sc.write("ws-%s/typeshare.toml" % kind, far_text)
+                value, fed = place_config(sc, kind, wd + "/typeshare.toml", text)
+                if kind == "fifo":
+                    allowed.append(("the text written into the FIFO", ref))
+                got = one(sc, tag, [], sc.path(wd), **fed)
+            check.saw(("object-kind", how, kind, L, shape, bool(flags), text[-200:]), nontrivial=not same(ref, dflt) or not with_text)
+            check.count("object-kind %s %s" % (how, kind))
+            check.count("object-kind lang %s" % L)
+            case = dict(base_case, kind=kind, found_by=how, config_argument=value if how == "-c" else None,
+                        replay="write `toml` to cfg.toml; regular: typeshare --lang %s %s -c cfg.toml -o ref.%s src; this kind: %s"
+                               % (L, " ".join(flags), ext, REPLAY.get(kind, kind) % {"L": L, "f": " ".join(flags), "e": ext}))
+            impl = {"rc": got["rc"], "stderr": got["err"][-600:], "output": (got["output"] or "")[-1500:], "bytes_taken_by_the_reader": got["served"],
+                    "regular_file_run": {"rc": ref["rc"], "output": (ref["output"] or "")[-1500:]}}
+            if with_text or how == "search":
+                ok = any(same(got, a) for _, a in allowed)
+                # an object without text may also be refused with a diagnostic
+                if not ok and not with_text and got["rc"] not in (0, None) and got["err"].strip() and got["output"] is None:
+                    ok = True
+                if not ok:
+                    check.violation("%s, configuration %s, being %s (%s text%s): the run should use %s - as the run with the same text in a regular "
+                                    "file does (exit status %s) - but: %s"
+                                    % (L, "given with -c" if how == "-c" else "discovered as ./typeshare.toml", kind_words(kind), shape,
+                                       ", option %s" % " ".join(flags) if flags else "", " or ".join(a for a, _ in allowed), ref["rc"], describe(got)),
+                                    case=case, impl=impl, model=ma, failing_input=True)
+                    return True
+            else:
+                # nothing to read behind the name given with -c: a diagnostic, a non-zero exit status, no output
+                if got["timed_out"] or got["rc"] == 0 or not got["err"].strip() or got["output"] is not None:
+                    check.violation("%s, -c names a %s: expected a diagnostic and a non-zero exit status, but: %s%s"
+                                    % (L, kind_words(kind), describe(got) if got["rc"] in (0, None) else "exit status %s, stderr %r" % (got["rc"], last_words(got["err"])),
+                                       "; an output file was written" if got["output"] is not None else ""),
+                                    case=case, impl=impl, failing_input=True)
+                    return True
+    return False
+
+
+KIND_WORDS = {"fifo": "a FIFO (named pipe) that a writer puts the text into", "dev-stdin-pipe": "/dev/stdin, the text piped into the process",
+              "dev-stdin-file": "/dev/stdin, redirected from the file", "inherited-pipe-dev-fd": "/dev/fd/N of an inherited pipe (`<(cat file)`)",
+              "inherited-pipe-proc-self-fd": "/proc/self/fd/N of an inherited pipe", "regular": "a regular file",
+              "missing": "path that does not exist", "directory": "directory", "dangling-symlink": "dangling symbolic link",
+              "symlink-to-directory": "symbolic link to a directory", "symlink-loop": "symbolic link that leads back to itself"}
+
+
+def kind_words(kind):
+    return KIND_WORDS.get(kind, "a " + kind.replace("symlink", "symbolic link").replace("-", " "))
+
+
+def last_words(err):
+    """the last two lines of the diagnostics, without the time stamps"""
+    lines = [re.sub(r"^\[\d{4}-[^\]]*\] ", "", l) for l in err.strip().split("\n") if l.strip()]
+    return " / ".join(lines[-2:])[-400:]
+
+
+REPLAY = {"fifo": "mkfifo p; cat cfg.toml > p & typeshare --lang %(L)s %(f)s -c p -o out.%(e)s src",
+          "dev-stdin-pipe": "cat cfg.toml | typeshare --lang %(L)s %(f)s -c /dev/stdin -o out.%(e)s src",
+          "dev-stdin-file": "typeshare --lang %(L)s %(f)s -c /dev/stdin -o out.%(e)s src < cfg.toml",
+          "inherited-pipe-dev-fd": "typeshare --lang %(L)s %(f)s -c <(cat cfg.toml) -o out.%(e)s src   # bash: /dev/fd/N",
+          "inherited-pipe-proc-self-fd": "exec 7< <(cat cfg.toml); typeshare --lang %(L)s %(f)s -c /proc/self/fd/7 -o out.%(e)s src",
+          "directory": "mkdir d; typeshare --lang %(L)s %(f)s -c d -o out.%(e)s src",
+          "dangling-symlink": "ln -s nowhere.toml l; typeshare --lang %(L)s %(f)s -c l -o out.%(e)s src"}
+
+
+def generate_onto_object_part(check):
+    """-g never overwrites: the same dimension for the *target* of -g.  Whatever already exists under the name - a symbolic link to
+    a configuration file (absolute, relative), a hard link to one, a directory, a link to a directory, a FIFO - is left as it is,
+    with a non-zero exit status and without waiting for anybody; a dangling link is either refused or the configuration is created
+    behind it, the link itself stays"""
+    kinds = ["symlink-absolute", "symlink-relative", "hard-link", "directory", "symlink-to-directory", "fifo", "dangling-symlink", "symlink-loop"]
+    keep = "[swift]\nprefix = \"Pinned\"\n"
+
+    def look(root):
+        out = {}
+        for d, dirs, files in os.walk(root):
+            for f in files + dirs:
+                p = os.path.join(d, f)
+                st = os.lstat(p)
+                out[os.path.relpath(p, root)] = (stat.S_IFMT(st.st_mode), os.readlink(p) if stat.S_ISLNK(st.st_mode) else None,
+                                                 open(p, "rb").read() if stat.S_ISREG(st.st_mode) else None,
+                                                 st.st_mtime_ns if stat.S_ISREG(st.st_mode) else None)
+        return out
+
+    for kind in kinds:
+        for explicit in (True, False):
+            with Scratch() as sc:
+                sc.write("ws/proj/src/lib.rs", SRC)
+                os.makedirs(sc.path("ws/pre"))
+                value, fed = place_config(sc, kind, "ws/pre/typeshare.toml", keep)
+                before = look(sc.dir)
+                r = run_cli_fed(["-g"] + (["-c", value] if explicit else []) + ["--swift-prefix", "Other", sc.path("ws/proj/src")],
+                                cwd=sc.path("ws/pre"), timeout=10)
+                after = look(sc.dir)
+            check.saw(("generate-onto", kind, explicit), nontrivial=True)
+            check.count("generate-config onto %s" % kind)
+            changed = sorted(k for k in set(before) | set(after) if before.get(k) != after.get(k))
+            if kind == "dangling-symlink" and r["rc"] == 0:
+                # created behind the link: nothing that existed was overwritten
+                changed = [k for k in changed if k in before]
+            if r["timed_out"] or changed or (r["rc"] == 0 and kind != "dangling-symlink"):
+                check.violation("-g with the target (%s) being an existing %s: %s" % (
+                    "named by -c" if explicit else "./typeshare.toml", kind.replace("-", " "),
+                    "the run does not end" if r["timed_out"] else "changed: %s" % changed if changed else "exit status 0, nothing written"),
+                    case={"kind": kind, "explicit": explicit, "existing_configuration": keep},
+                    impl={"rc": r["rc"], "stderr": r["err"][-400:], "changed": changed}, failing_input=True)
+                return
 
 
 def file_only(check):
